@@ -19,12 +19,12 @@ ASSUMPTIONS = ["rfftn/irfftn of C04; Nyquist-free fields for the physical-space 
 
 
 def translate(ctx):
-    """Gen/ETDRK.v (stage programs) and Gen/LinOps.v (make_incompressible, tied by C10_code_make_incompressible_is_model); both are
+    """Gen/ETDRK.v (stage programs) and Gen/LinOps.v + Gen/OperatorsGen.v (make_incompressible, tied by C10_code_make_incompressible_is_model); both are
     always attempted"""
     errors = []
-    for name, tr in (("etdrk", tr_etdrk), ("linops", tr_linops)):
+    for name, fn in (("etdrk", tr_etdrk.run), ("linops", tr_linops.run), ("make_incompressible", lambda: tr_linops.run_operators(require=("make_incompressible",)))):
         try:
-            tr.run()
+            fn()
         except Exception as e:
             errors.append(f"{name}: {type(e).__name__}: {e}")
     if errors:
